@@ -35,6 +35,7 @@
 #define protected public
 #include "vsim.h"
 #include "colvarcomp.h"
+#include "colvars_memstream.h"
 
 struct c12_loc {
   std::string name;
@@ -123,9 +124,13 @@ struct c12_session : public vsim_session {
   static snap_t getall(std::vector<c12_loc> &L) { snap_t s; for (auto &l : L) s.push_back(l.get()); return s; }
   static void setall(std::vector<c12_loc> &L, snap_t const &s) { for (size_t i = 0; i < L.size(); i++) L[i].set(s[i]); }
 
-  void probe(std::string const &label, std::vector<c12_loc> &L, snap_t const &S0, std::function<void()> const &run_item)
+  void probe(std::string const &label, std::vector<c12_loc> &L, snap_t const &S0, std::function<void()> const &run_item_only,
+             std::function<void()> const &restore_private = std::function<void()>())
   {
     std::ostream &o = *out;
+    // private state of the item outside the locations (kernels, hills, samples, moving centres) is put back before every run
+    // from a binary state buffer, so that runs from the same snapshot repeat themselves
+    std::function<void()> run_item = [&]() { if (restore_private) restore_private(); run_item_only(); };
     setall(L, S0);
     run_item();
     snap_t S1 = getall(L);
@@ -157,7 +162,7 @@ struct c12_session : public vsim_session {
       for (size_t w : W) for (size_t e = 0; e < S1[w].size(); e++) if (S1[w][e] != S0[w][e] && S2[w][e] != S1[w][e]) dep = true;
       if (dep) R.push_back(j);
     }
-    o << "FP " << label << (repeatable ? "" : " NOTREPEATABLE") << " W=";
+    o << "FP " << label << (repeatable ? (restore_private ? " RESTORED" : "") : " NOTREPEATABLE") << " W=";
     for (size_t k = 0; k < W.size(); k++) o << (k ? "," : "") << L[W[k]].name;
     o << " R=";
     for (size_t k = 0; k < R.size(); k++) o << (k ? "," : "") << L[R[k]].name;
@@ -196,7 +201,15 @@ struct c12_session : public vsim_session {
     for (colvarbias *b : *(cv->biases_active())) {
       int bi = -1;
       for (size_t k = 0; k < cv->biases.size(); k++) if (cv->biases[k] == b) bi = k;
-      probe("bias " + std::to_string(bi), L, S2, [b]() { b->update(); });
+      // the bias' own state, saved once in binary form (exact) and read back before every run of the probe
+      std::shared_ptr<cvm::memory_stream> buf(new cvm::memory_stream());
+      b->write_state(*buf);
+      bool const quiet_save = proxy->quiet;
+      std::ostream *logos_save = proxy->logos;
+      proxy->quiet = true; proxy->logos = NULL;     // reading a state logs a few lines every time
+      probe("bias " + std::to_string(bi), L, S2, [b]() { b->update(); },
+            [b, buf]() { int const ec = cvm::errorCode; cvm::memory_stream is(buf->length(), buf->output_buffer()); b->read_state(is); cvm::errorCode = ec; });
+      proxy->quiet = quiet_save; proxy->logos = logos_save;
     }
     if (cv->use_scripted_forces && !cv->scripting_after_biases) probe("script", L, S2, [cv]() { cv->calc_scripted_forces(); });
     *out << "FPEND\n";
